@@ -184,7 +184,7 @@ const denseFormat = `{remote} {method} {uri} [{>Cookie}] [{~sid}] [{?q}] [{>X-A}
 
 func denseSite(dir string) string {
 	e2eSetup()
-	return fmt.Sprintf(`http://localhost:0, http://a.b.c.d.localhost:0 {
+	return fmt.Sprintf(`http://localhost:0, http://a.b.c.d.localhost:0, http://:0 {
 	root %s
 	log / %s/access.log "%s"
 	errors %s/errors.log
